@@ -88,6 +88,14 @@ pub fn c03_configs(tier: Tier) -> Vec<(Cfg, usize)> {
     c.align = true;
     c.inserts = false;
     v.push((c, d));
+    // bottom alignment with three bars: shrinking regions, padding, text
+    let mut c = Cfg::base("c03-bottom-three", 20, 40);
+    c.root = pre_logs(2, vec![Op::AlignBottom, Op::Add, Op::Add, Op::Add, Op::Tick(0), Op::Tick(1), Op::Tick(2)]);
+    c.inserts = false;
+    c.remove = false;
+    c.suspend = tier == Tier::Thorough;
+    c.msgs = vec!["m".into()];
+    v.push((c, d + 1));
     // the same text printed again and again (an unchanged frame must still be painted)
     let mut c = Cfg::base("c03-same-text", 20, 40);
     c.root = pre_logs(2, two_drawn());
@@ -263,7 +271,9 @@ pub fn c03_run(t: Tier, s: Shard, st: &mut Stats) {
     run_cfgs(c03_configs(t), s, st)
 }
 pub fn c04_run(t: Tier, s: Shard, st: &mut Stats) {
-    run_cfgs(c04_configs(t), s, st)
+    run_cfgs(c04_configs(t), s, st);
+    // standalone bars on a rate-limited target, incl. iterator-driven completion
+    crate::c04s::run(t, s, st);
 }
 pub fn c19_run(t: Tier, s: Shard, st: &mut Stats) {
     run_cfgs(c19_configs(t), s, st)
@@ -275,7 +285,9 @@ pub fn c03_meta(t: Tier) -> Meta {
     meta_for(c03_configs(t), "every emitted log row present exactly once, in order, above every live bar")
 }
 pub fn c04_meta(t: Tier) -> Meta {
-    meta_for(c04_configs(t), "finish*/abandon*/drop always paint the final state; dropping a finished bar is a screen no-op; visibly finished bars keep their final rendering")
+    let mut m = meta_for(c04_configs(t), "finish*/abandon*/drop always paint the final state; dropping a finished bar is a screen no-op; visibly finished bars keep their final rendering");
+    m.rule.push_str("; plus standalone bars on term_like_with_hz (1 and 255 Hz, and unlimited): every history to the same depth over burn/idle/tick/inc/set_message/set_length/reset and every finish variant, finish_using_style, drop and wrap_iter exhaustion over 0/1/3 items for each ProgressFinish: the operation must paint and the document must equal the reference rendering of the final state");
+    m
 }
 pub fn c19_meta(t: Tier) -> Meta {
     meta_for(c19_configs(t), "wrapped rows accounted, leading-prefix rule under height overflow, no live bar row in scrollback, no residue")
@@ -311,6 +323,9 @@ pub fn c03_replay(v: &Value) -> i32 {
     replay_any(v, "C03")
 }
 pub fn c04_replay(v: &Value) -> i32 {
+    if let Some(c) = crate::c04s::replay(v) {
+        return c;
+    }
     replay_any(v, "C04")
 }
 pub fn c19_replay(v: &Value) -> i32 {
